@@ -467,7 +467,7 @@ func genPanicSites(dir string) error {
 // source is only reached through io.ReadFull, io.CopyN, io.LimitReader, io.TeeReader and the one-byte reads of
 // breader.ReadByte (Model/Src.lean); Props/C13.lean pins the list.
 func genSrcReads(dir string) error {
-	var rows []string
+	var rows, wrows []string
 	for _, rel := range []string{".", "lzma"} {
 		p, err := loadPkg(rel)
 		if err != nil {
@@ -508,19 +508,32 @@ func genSrcReads(dir string) error {
 								case "ReadFull", "ReadAtLeast", "ReadAll", "Copy", "CopyN", "CopyBuffer", "LimitReader", "TeeReader", "NewReader", "NewReaderSize", "MultiReader", "NewSectionReader":
 									rows = append(rows, fmt.Sprintf("(%s, %s, %s)", leanStr(rel+"/"+p.names[fi]), leanStr(fname), leanStr(pn.Imported().Path()+"."+sel.Sel.Name)))
 								}
+								switch sel.Sel.Name {
+								case "Copy", "CopyN", "CopyBuffer", "WriteString", "MultiWriter", "NewWriter", "NewWriterSize":
+									wrows = append(wrows, fmt.Sprintf("(%s, %s, %s)", leanStr(rel+"/"+p.names[fi]), leanStr(fname), leanStr(pn.Imported().Path()+"."+sel.Sel.Name)))
+								}
 							}
 							return true
 						}
 					}
-					if sel.Sel.Name != "Read" && sel.Sel.Name != "ReadByte" {
+					isRead := sel.Sel.Name == "Read" || sel.Sel.Name == "ReadByte"
+					isWrite := sel.Sel.Name == "Write" || sel.Sel.Name == "WriteByte" || sel.Sel.Name == "WriteString" || sel.Sel.Name == "Flush"
+					if !isRead && !isWrite {
 						return true
 					}
 					tv, ok := info.Types[sel.X]
 					if !ok || tv.Type == nil {
 						return true
 					}
-					if _, isIface := tv.Type.Underlying().(*types.Interface); isIface {
-						rows = append(rows, fmt.Sprintf("(%s, %s, %s)", leanStr(rel+"/"+p.names[fi]), leanStr(fname), leanStr("("+tv.Type.String()+")."+sel.Sel.Name)))
+					_, isIface := tv.Type.Underlying().(*types.Interface)
+					ts := strings.TrimPrefix(tv.Type.String(), "*")
+					row := fmt.Sprintf("(%s, %s, %s)", leanStr(rel+"/"+p.names[fi]), leanStr(fname), leanStr("("+tv.Type.String()+")."+sel.Sel.Name))
+					if isRead && isIface {
+						rows = append(rows, row)
+					}
+					// the sink: interface-typed writers (hash.Hash* are interfaces too, but cannot fail and are not sinks) and bufio.Writer
+					if isWrite && ((isIface && !strings.HasPrefix(ts, "hash.")) || ts == "bufio.Writer") {
+						wrows = append(wrows, row)
 					}
 					return true
 				})
@@ -528,8 +541,10 @@ func genSrcReads(dir string) error {
 		}
 	}
 	sort.Strings(rows)
+	sort.Strings(wrows)
 	var sb strings.Builder
 	sb.WriteString("/- GENERATED by harness `xzh gen` from /repo (T-facts: go/types). Do not edit. -/\nnamespace Gen\n\n")
+	fmt.Fprintf(&sb, "/-- (file, function, callee): calls of Write / WriteByte / Flush on interface-typed values (hash.Hash excluded) and on\n    bufio.Writer, and of the io / bufio functions that write to an io.Writer, in packages xz and lzma -/\ndef sinkWrites : List (String × String × String) :=\n  [%s]\n\n", strings.Join(wrows, ",\n   "))
 	fmt.Fprintf(&sb, "/-- (file, function, callee): calls of Read / ReadByte on interface-typed values and of the io / bufio functions that\n    read from an io.Reader, in packages xz and lzma -/\ndef srcReads : List (String × String × String) :=\n  [%s]\n\nend Gen\n", strings.Join(rows, ",\n   "))
 	return os.WriteFile(filepath.Join(dir, "SrcReads.lean"), []byte(sb.String()), 0o644)
 }
